@@ -1,7 +1,8 @@
 (* C03 — Parser is total, rejects ill-formed text, and accepts only sound trees.
    Pinned statements only.  Model: Model/Builder.v (src/parse.rs), Model/Entity.v (src/entity.rs). *)
 From Coq Require Import List NArith.
-From XotV Require Import Model.Base Model.Interning Model.Fullname Model.Entity Model.Builder Proofs.EntityProofs Proofs.BuilderProofs Proofs.BuilderTotal.
+From XotV Require Import Model.Base Model.Interning Model.Fullname Model.Entity Model.Builder Proofs.EntityProofs Proofs.BuilderProofs Proofs.BuilderTotal Proofs.BuilderSound.
+From XotV Require Import Spec.Shape Spec.NoAdj.
 Import ListNotations.
 Open Scope N_scope.
 
@@ -72,6 +73,24 @@ Theorem C03_builder_invariant_along_any_stream :
     match brun bi st ts with BOk st' => BInv st' | BPanic => False | _ => True end.
 Proof. exact brun_total. Qed.
 Print Assumptions C03_builder_invariant_along_any_stream.
+
+(* "Whatever is accepted is a structurally valid tree": for EVERY token stream (no assumption on its shape), interning state and
+   arena position, a tree handed back by parse / parse_fragment is well shaped (namespace* attribute* ordinary* under elements,
+   ordinary non-document nodes under the document node, leaves childless), has no attribute name and no declared prefix twice on
+   an element, has no two adjacent text nodes, and occupies exactly the next free slots of the arena *)
+Theorem C03_accepted_tree_is_sound :
+  forall bi t next srclen ts p, parse_document bi t next srclen ts = BOk p ->
+    shape_store (pr_tree p) = true /\ keys (pr_tree p) = true /\ na (pr_tree p) = true
+    /\ exists cnt, Permutation.Permutation (ids (pr_tree p)) (nrange next cnt) /\ pr_next p = next + N.of_nat cnt.
+Proof. exact parse_document_sound. Qed.
+Print Assumptions C03_accepted_tree_is_sound.
+
+Theorem C03_accepted_fragment_is_sound :
+  forall bi t next ts p, parse_fragment bi t next ts = BOk p ->
+    shape_store (pr_tree p) = true /\ keys (pr_tree p) = true /\ na (pr_tree p) = true
+    /\ exists cnt, Permutation.Permutation (ids (pr_tree p)) (nrange next cnt) /\ pr_next p = next + N.of_nat cnt.
+Proof. exact parse_fragment_sound. Qed.
+Print Assumptions C03_accepted_fragment_is_sound.
 
 (* non-vacuity: the hypothesis holds of a real stream, and a stream without that shape does reach an unwrap *)
 Example C03_shape_example :
